@@ -208,6 +208,61 @@ theorem inv_closeConn {limit : Nat} {c : Cfg} (h : Inv limit c) (i : Nat) : Inv 
     · exact h.nda
     · exact h.ma
 
+theorem inv_failConn {limit : Nat} {c : Cfg} (h : Inv limit c) (i : Nat) : Inv limit (failConn true limit c i) := by
+  have hlen : ((c.tunnels.length : Nat) : Int) ≤ c.cnt := by rw [h.cnt]; omega
+  have hcapn : capOk limit c.tunnels.length = true := capOk_of limit _ c.cnt h.cap hlen
+  unfold failConn
+  split
+  · -- idle: refused, or taken and given back
+    rename_i hst
+    have key : ∀ e : Ev, (specStep limit (replay limit c.trace) e = ⟨(replay limit c.trace).acqd, (replay limit c.trace).live,
+        (replay limit c.trace).good && c.tunnels.length == (replay limit c.trace).live.length && capOk limit c.tunnels.length⟩) →
+        Inv limit { c with st := upd c.st i .fin, trace := c.trace ++ [e] } := by
+      intro e he
+      refine ⟨?_, ?_, ?_, h.cap, ?_, h.ndl, ?_, ?_⟩
+      all_goals simp only [replay_snoc, he]
+      · simp [h.good, h.live, hcapn]
+      · exact h.live
+      · exact h.cnt
+      · exact h.nda
+      · intro j
+        by_cases e' : j = i
+        · subst e'; simp [(h.ma j), hst]
+        · rw [upd_ne _ _ _ _ e']; exact h.ma j
+      · intro j
+        by_cases e' : j = i
+        · subst e'; simp [(h.ml j), hst]
+        · rw [upd_ne _ _ _ _ e']; exact h.ml j
+    split
+    · exact key _ rfl
+    · exact key _ rfl
+  · -- acq: RegisterTunnel failed
+    rename_i hst
+    have hia : i ∈ (replay limit c.trace).acqd := (h.ma i).mpr hst
+    have hcap' : limit = 0 ∨ c.cnt - 1 ≤ limit := by
+      rcases h.cap with hz | hl
+      · left; exact hz
+      · right; omega
+    refine ⟨?_, ?_, ?_, hcap', ?_, h.ndl, ?_, ?_⟩
+    all_goals simp only [replay_snoc, specStep]
+    · simp [h.good, h.live, hia, hcapn]
+    · exact h.live
+    · rw [List.length_erase_of_mem hia]
+      have := h.cnt
+      have hpos : (replay limit c.trace).acqd.length ≥ 1 := List.length_pos_of_mem hia
+      omega
+    · exact h.nda.erase i
+    · intro j
+      rw [h.nda.mem_erase_iff]
+      by_cases e : j = i
+      · subst e; simp
+      · rw [upd_ne _ _ _ _ e]; simp [e, h.ma j]
+    · intro j
+      by_cases e : j = i
+      · subst e; simp [(h.ml j), hst]
+      · rw [upd_ne _ _ _ _ e]; exact h.ml j
+  · exact inv_stepConn h i
+
 theorem inv_run {limit : Nat} (σ : List Sch) (c : Cfg) (h : Inv limit c) : Inv limit (run true limit c σ) := by
   induction σ generalizing c with
   | nil => exact h
@@ -217,5 +272,6 @@ theorem inv_run {limit : Nat} (σ : List Sch) (c : Cfg) (h : Inv limit c) : Inv 
     cases e with
     | step i => exact inv_stepConn h i
     | close i => exact inv_closeConn h i
+    | stepFail i => exact inv_failConn h i
 
 end Tunnox.C17Slot
